@@ -31,7 +31,7 @@ P = {
          "Zeroing across calls with 'modifies anything' frames is carried by call-presence ghosts, not by byte-level postconditions; resend queue retention (F10) is not covered."),
  "C09": ("MAC key disclosure: keys move from macKeyHistory to oldMACKeys only in the rotation branch that retires their key id (no-op otherwise), conserving the total count; revealMACKeys hands out all of them and empties the list; genDataMsgWithFlag discloses exactly the old list.",
          "Which entries are removed (multiset exactness of deleteKeysAt) is proved only as counts; re-AKE carry-over (F11) is not covered."),
- "C10": ("Wire format pieces proved against spec terms: v2/v3 message headers, data message field offsets, key ids and non-zero counter on send, HMAC terms for checkSign and sumHMAC, commitment hash term, query message prefix/version letters, DH shared secret term, public key of a rotation.",
+ "C10": ("Wire format pieces proved against spec terms: v2/v3 message headers, data message field offsets, key ids and non-zero counter on send, HMAC terms for checkSign and sumHMAC, commitment hash term, query message prefix/version letters, DH shared secret term, public key of a rotation, the 40-byte r||s layout of DSA signatures (each value right-aligned in 20 bytes; keys with a larger q are refused, F28 repaired), acceptance of every well-formed unsigned part of a data message.",
          "Key-derivation byte constants, base64 armour and fragment prefix contents are not proved (lengths only)."),
  "C11": ("SMP final comparisons: verifySMP3ProtocolSuccess / verifySMP4ProtocolSuccess return nil iff Rab equals Pa/Pb (as powmod/invmod terms over the real p).",
          "Secret binding, message terms, the algebraic iff-lemma and the event gate are not covered by discharged obligations (SMP message processing is an assumed contract)."),
@@ -45,8 +45,8 @@ P = {
          "InitializeInstanceTag accepts 1..0xff (known finding F21); fragment branch of ExtractInstanceTags is safety-only."),
  "C16": ("Version commitment: sticky once set (also across fragment handling), v3 preferred over v2 within policy and offer, error and no commitment otherwise, committed version always allowed by policy, checkVersion ties the committed version to the message's version word; query message lists exactly the allowed versions; the whitespace-tag scanner only ever adds versions and consumes 8-byte groups; Send with OTR disabled returns one copy and Receive with OTR disabled returns the bytes it was given (F26 repaired).",
          "Query-message version parsing is covered only for safety; Receive pass-through of ordinary plaintext in the enabled case is covered only as a length/copy fact."),
- "C17": ("Parsers proved against layouts: data message fields, TLV header and value window, AKE message deserializers (length and containment facts).",
-         "Round-trip lemmas and key-file import/export are not covered."),
+ "C17": ("Parsers proved against layouts: data message fields, TLV header and value window, AKE message deserializers (length and containment facts), ExtractMPI accepts exactly the well-formed encodings (including zero), s-expression reader result types, and the text exportName/exportProtocol hand to the writer (ghost model of bufio.Writer).",
+         "Round-trip lemmas are not stated as lemmas; exportParameter (fmt.Sprintf content) and the composed export/import round trip are not covered."),
  "C18": ("Lifecycle: msgState is preserved by every contracted function except akeHasFinished (encrypted), End (plainText) and processDisconnectedTLV (finished); GoneSecure/StillSecure/GoneInsecure are appended to the ghost event log exactly on those transitions; queue append/clear/skip-while-retransmitting; last-message flag.",
          "retransmit/processAKE flush discipline (F25) and 'at most once' over histories are not covered."),
  "C19": ("Boundedness pieces: findCounterFor grows the list only for a new pair, deleteKeysAt/forgetMACKeys shrink by exactly the returned count, injections are flushed, queue cleared; rejected messages do not grow counters.",
